@@ -200,6 +200,29 @@ def read_consts(ctx):
         raise ConstError(f"thresholds not found where the models expect them ({type(e).__name__}: {e}); " + '; '.join(problems))
 
 
+TSOFT = [('spatialmath/base/vectors.py', 'unitvec'), ('spatialmath/base/vectors.py', 'unitvec_norm'), ('spatialmath/base/vectors.py', 'iszerovec'),
+         ('spatialmath/base/vectors.py', 'iszero'), ('spatialmath/base/vectors.py', 'unittwist'), ('spatialmath/base/vectors.py', 'unittwist_norm'),
+         ('spatialmath/base/vectors.py', 'unittwist2'), ('spatialmath/base/vectors.py', 'unittwist2_norm'), ('spatialmath/base/vectors.py', 'angdiff'),
+         ('spatialmath/base/quaternions.py', 'unit'), ('spatialmath/base/transforms3d.py', 'trnorm'), ('spatialmath/base/transforms2d.py', 'trnorm2')]
+_TSOFT_STOP = {'unitvec', 'unitvec_norm', 'iszerovec', 'iszero', 'unittwist', 'unittwist_norm', 'unittwist2', 'unittwist2_norm', 'angdiff', 'unit', 'trnorm',
+               'trnorm2'}
+
+
+def _tsoft_thr(fname):
+    """restructured function (its threshold test moved into a same-module helper): the threshold read from the threshold summary of the
+    function + helper closure, provided that summary is the recorded one (lib/tsoft.py) and holds one distinct k*_eps comparison"""
+    import re
+    from lib import tsoft
+    for rel, q in TSOFT:
+        if q == fname:
+            ok, found, base = tsoft.same_thresholds(REPO, 'C14', rel, q, _TSOFT_STOP - {q})
+            cm = sorted({t for t in (found or []) if t.startswith('cmp ')})
+            m = re.fullmatch(r'cmp \w+ (?:\w+=)?(\d+)\*eps', cm[0]) if len(cm) == 1 else None
+            if ok and m:
+                return ('keps', int(m.group(1)))
+    return None
+
+
 def _extract(funcs, T):
     def cmp_thr(fname):
         """the threshold of the ONE test of the function that compares a quantity with a literal/tol/_eps expression"""
@@ -213,6 +236,9 @@ def _extract(funcs, T):
                 except ConstError:
                     pass
         if len(found) != 1:
+            soft = _tsoft_thr(fname)
+            if soft is not None:
+                return soft
             raise ConstError(f"{fname}: expected exactly one threshold comparison, found {len(found)}")
         return found[0]
     th = {}
